@@ -394,35 +394,50 @@ func c20R3(c *Ctx) {
 			probe = cs.Call
 		}
 	}
-	var sw *ast.SwitchStmt
-	ast.Inspect(fn.Decl.Body, func(nd ast.Node) bool {
-		if s, ok := nd.(*ast.SwitchStmt); ok && s.Tag != nil && strings.Contains(exprString(s.Tag), "NodeCapabilityHasCiliumChainer") {
-			sw = s
+	// the recorded value: store.Get(HasCiliumChainer), possibly kept in a local
+	var get *ast.CallExpr
+	for _, cs := range p.CallsIn(fn) {
+		if cs.Callee != nil && cs.Callee.Name() == "Get" && len(cs.Call.Args) == 1 && strings.Contains(exprString(cs.Call.Args[0]), "NodeCapabilityHasCiliumChainer") {
+			get = cs.Call
 		}
-		return true
-	})
-	if probe == nil || sw == nil {
-		c.Bad("C20.R3", "recorded capability and link probe", p.Pos(fn.Decl), fn.Key(), "switch store.Get(HasCiliumChainer) {…}; netlink.LinkByName(\"cilium_net\")", fmt.Sprintf("switch=%v probe=%v", sw != nil, probe != nil))
+	}
+	if probe == nil || get == nil {
+		c.Bad("C20.R3", "recorded capability and link probe", p.Pos(fn.Decl), fn.Key(), "store.Get(HasCiliumChainer) …; netlink.LinkByName(\"cilium_net\")", fmt.Sprintf("recorded value read=%v probe=%v", get != nil, probe != nil))
 		return
 	}
-	c.Check(sw.End() < probe.Pos(), "C20.R3", "recorded capability is consulted before probing the link", p.Pos(sw), fn.Key(), "switch precedes LinkByName", "probe first")
-	got := map[string]string{}
-	for _, cl := range sw.Body.List {
-		cc := cl.(*ast.CaseClause)
-		for _, x := range cc.List {
-			for _, s := range cc.Body {
-				if r, ok := s.(*ast.ReturnStmt); ok && len(r.Results) == 2 {
-					got[exprString(x)] = exprString(r.Results[0])
-				}
-			}
+	rec := exprString(get)
+	if _, lhs := assignedFromCall(fn, get); len(lhs) == 1 && lhs[0] != nil {
+		rec = lhs[0].Name()
+	}
+	c.Check(get.End() < probe.Pos(), "C20.R3", "recorded capability is consulted before probing the link", p.Pos(get), fn.Key(), "store.Get precedes LinkByName", "probe first")
+	// a recorded True / False decides: the probe is reached only when neither is recorded, and no
+	// return after the read yields anything but the recorded value
+	c.Require("C20.R3", "the link is probed only when nothing is recorded", fn, probe, rec+" != True && "+rec+" != False", nil)
+	nRet := 0
+	for _, r := range declReturns(fn.Decl.Body) {
+		if r.Pos() < get.End() || len(r.Results) != 2 {
+			continue
+		}
+		nRet++
+		lit := ""
+		if tv := info.Types[r.Results[0]]; tv.Value != nil {
+			lit = tv.Value.String()
+		}
+		if lit != "true" {
+			c.Require("C20.R3", "recorded True decides (no other result once True is recorded)", fn, r, rec+" != True", nil)
+		}
+		if lit != "false" {
+			c.Require("C20.R3", "recorded False decides (no other result once False is recorded)", fn, r, rec+" != False", nil)
 		}
 	}
-	c.Check(got["True"] == "true" && got["False"] == "false", "C20.R3", "recorded True / False decide", p.Pos(sw), fn.Key(), "case True: return true; case False: return false", fmt.Sprintf("%v", got))
+	c.Floor("C20.R3", "returns after the recorded value is read", 3, nRet)
 	// the requested value is returned only at the very end
 	param := info.Defs[fn.Decl.Type.Params.List[0].Names[0]]
+	q := NewPathQuery(p, fn, nil)
 	for _, r := range declReturns(fn.Decl.Body) {
 		if identObj(info, r.Results[0]) == param {
-			c.Check(r.Pos() > probe.End(), "C20.R3", "the requested value is the last resort", p.Pos(r), fn.Key(), "return require after the recorded value and the probe", "earlier")
+			w := q.Escapes(nil, isExactly(r), isExactly(probe), nil)
+			c.Check(w == nil, "C20.R3", "the requested value is the last resort", p.Pos(r), fn.Key(), "must-pass: LinkByName → return require", "path: "+p.describePath(w))
 		}
 	}
 	// load failure is an error, not a default
